@@ -33,15 +33,17 @@ LEVEL = "model_checking"
 RULE = (
     "filter lattice: every (state dimension n=1..8) x (transition-matrix kind) x (P,Q,R kind triple of the tier) x "
     "(tuning alpha,beta,kappa) x (resample off/on); for each, (A) one prediction followed by EVERY ordered stack of "
-    "1..4 observations with dimensions from {1,2,3,4} and total dimension <= 8 (forecast and update), and (B) EVERY "
-    "operation sequence predict.(predict|update(no obs)|update(1 obs)|update(3-obs stack)|forecast(stack))^k, k <= "
-    "depth-1, explored as a tree; after every operation each product of the real filter (pred_x, pred_p, mean_pred_y, "
-    "innov_cvr, cross_cvr, kalman_gain, est_p, est_x, innovation, nis, r_matrix, sigma points, time, source, flags) is "
-    "compared with a textbook Kalman filter started from the state the filter held before the operation, and the "
-    "same operation is replayed on a pickled copy whose result object is applied to a mirror filter that must stay "
-    "bitwise equal. non-trivial = stack of >= 2 observations, or resample on, or a sequence of >= 2 operations "
-    "(weights: kappa defaulted or alpha < 1; noise builders: dt != 1 and magnitude != 1); distinct by construction "
-    "(lattice points / tree nodes)."
+    "1..4 observations with dimensions from {1,2,3,4} and total dimension <= 8 (forecast and update; quick tier: all "
+    "142 stacks for one tuning per system, a 9-stack core set for the other three), and (B) EVERY operation sequence "
+    "predict.(predict|update(no obs)|update(1 obs)|update(3-obs stack)|forecast(stack))^k explored as a tree (quick: "
+    "k <= 2; thorough: k <= 3 for two of six tunings per system, k <= 2 for the rest); after every operation each "
+    "product of the real filter (pred_x, pred_p, mean_pred_y, innov_cvr, cross_cvr, kalman_gain, est_p, est_x, "
+    "innovation, nis, r_matrix, sigma points, time, source, flags) is compared with a textbook Kalman filter started "
+    "from the state the filter held before the operation, and the same operation is replayed on a pickled copy whose "
+    "result object is applied to a mirror filter that must stay bitwise equal. non-trivial = stack of >= 2 "
+    "observations, or resample on, or a sequence of >= 2 operations (weights: kappa defaulted or alpha < 1; sigma "
+    "points: full/ill-conditioned covariance or custom root; noise builders: dt != 1 and magnitude != 1); distinct by "
+    "construction (lattice points / tree nodes)."
 )
 ASSUMPTIONS = [
     "numpy dense linear algebra (matmul, solve, cholesky, eigvalsh) is the reference arithmetic",
@@ -71,8 +73,14 @@ def _kinds(tier):
     return [(p, q, (p + q) % 4) for p in range(4) for q in range(4)]
 
 
-def _depth(tier):
-    return 3 if tier == "quick" else 4
+def _depth(tier, n=None, fk=None, ti=None):
+    """Sequence depth: quick 3; thorough 4 for two of the six tunings per system (rotating with n and the F kind so
+    that every tuning is explored to depth 4 on a third of the systems), 3 for the others."""
+    if tier == "quick":
+        return 3
+    if ti is None:
+        return 4
+    return 4 if (ti - n - fk) % 3 == 0 else 3
 
 
 def _tunings(tier):
@@ -105,6 +113,8 @@ def bounds(tier, seed):
         "stack_compositions_note": "all tunings" if tier != "quick" else
         f"all {len(ALL_COMPS)} for tuning index (n + F kind + P kind) mod 4, core set {CORE_COMPS} for the others",
         "sequence_depth": _depth(tier),
+        "sequence_depth_note": "every tuning" if tier == "quick" else
+        "depth 4 for tuning indices with (index - n - F kind) mod 3 == 0 (two of six per system), depth 3 for the rest",
         "sequence_ops": OPS,
         "phase_seed": seed,
     }
@@ -680,7 +690,7 @@ def _run_lin(res, item):
             mirror = sysm.make_filter(tuning, resample)
             extra = {"sequence": "P", "stack_a": list(stacks["a"]), "stack_b": list(stacks["b"])}
             orc = _apply_op(ctx, "P", direct, mirror, {}, stacks, extra, resample)
-            _tree(ctx, direct, mirror, orc, stacks, ["P"], _depth(tier))
+            _tree(ctx, direct, mirror, orc, stacks, ["P"], _depth(tier, n, fk, ti))
 
 
 # ------------------------------------------------------------------------------------------------ weights
